@@ -277,6 +277,9 @@ func upperOK(facts []Fact, x *ssa.Slice, fn *ssa.Function) bool {
 
 func constUpperOK(facts []Fact, x *ssa.Slice) bool {
 	k, _ := ConstInt(x.High)
+	if k <= 0 {
+		return true // s[:0] is in bounds for every slice, nil included
+	}
 	if MinCapHook != nil {
 		if n, ok := MinCapHook(x.X, facts); ok && n >= k {
 			return true
